@@ -55,7 +55,7 @@ pub fn scalarmult_stub(q: &mut [u8; 32], n: &[u8; 32], p: &[u8; 32]) {
         assert!(k < 2, "SM_CALLS: more scalar multiplications than the harness expects");
         AES.sm_scalar[k] = *n;
         AES.sm_point[k] = *p;
-        let out: [u8; 32] = kani::any();
+        let out: [u8; 32] = if AES.sm_fixed { AES.sm_fixed_out } else { kani::any() };
         AES.sm_out[k] = out;
         *q = out;
         AES.sm_n = k + 1;
@@ -105,6 +105,8 @@ pub fn b2_finalize_any_stub(s: crate::blake2b::State, output: &mut [u8]) -> Resu
 // writing to it would corrupt the program under test.
 pub struct AeadState {
     pub magic: u64,
+    pub sm_fixed: bool,
+    pub sm_fixed_out: [u8; 32],
     pub mac_new_n: usize,
     pub mac_fin_n: usize,
     pub mac_key: [[u8; 32]; MAC_INST],
@@ -125,6 +127,8 @@ pub struct AeadState {
 }
 pub static mut AES: AeadState = AeadState {
     magic: 0xAEAE00025EEDC0DE,
+    sm_fixed: false,
+    sm_fixed_out: [0; 32],
     mac_new_n: 0,
     mac_fin_n: 0,
     mac_key: [[0; 32]; MAC_INST],
